@@ -149,8 +149,21 @@ Definition c04_step (before : snap) (s : hstep) : issues :=
                 "a tip withdrawal did not move the withdrawn amount from the tips escrow pool into the staking pools"
       else []).
 
+(* the successful voter-reward claims of a history as (account, dispute id) *)
+Definition reward_claims (steps : list hstep) : list (Z * Z) :=
+  flat_map (fun s => if (st_op s =? "ClaimReward")%string && (st_result s =? 0)
+                     then match st_params s with [id] => [(st_signer s, id)] | _ => [] end else []) steps.
+Fixpoint nodup_pairs (l : list (Z * Z)) : bool :=
+  match l with
+  | [] => true
+  | x :: t => negb (existsb (fun y => (fst x =? fst y) && (snd x =? snd y)) t) && nodup_pairs t
+  end.
+
 Definition c04_hist_check (c : hist_case) : issues :=
-  let 'Hist init steps := c in walk c04_step init steps.
+  let 'Hist init steps := c in
+  walk c04_step init steps
+  ++ spec_if (nodup_pairs (reward_claims steps))
+             "the dispute account paid the voter reward of one dispute twice to the same account (credits exceed what was paid in)".
 
 (* ---- C05: staking pools back the staking ledger (after every operation) ---------------------- *)
 Definition c05_inv (s : snap) : issues :=
